@@ -42,6 +42,7 @@ COMPR = 'starlark/src/eval/compiler/compr.rs'
 BCSTMT = 'starlark/src/eval/bc/compiler/stmt.rs'
 LISTM = 'starlark/src/values/types/list/methods.rs'
 AMOD = 'starlark/src/eval/bc/compiler/assign_modify.rs'
+BCCALL = 'starlark/src/eval/bc/compiler/call.rs'
 RNGG = 'starlark/src/values/types/range/globals.rs'
 
 # (unit, file, old, new, expected obligation substring)
@@ -165,6 +166,8 @@ MUTANTS = [
     ('bcorder', AMOD, '                        bc.write_instr::<InstrArrayIndex>(span, (array, index, temp_slot.to_out()));\n                        rhs.write_bc(rhs_slot.to_out(), bc);', '                        rhs.write_bc(rhs_slot.to_out(), bc);\n                        bc.write_instr::<InstrArrayIndex>(span, (array, index, temp_slot.to_out()));', 'AssignModifyLhs::write_bc'),
     ('bcorder', AMOD, '                bc.write_load_local(span, slot, lhs_rhs.get::<0>().to_out());\n                rhs.write_bc(lhs_rhs.get::<1>().to_out(), bc);', '                rhs.write_bc(lhs_rhs.get::<1>().to_out(), bc);\n                bc.write_load_local(span, slot, lhs_rhs.get::<0>().to_out());', 'AssignModifyLhs::write_bc'),
     ('bcorder', AMOD, '            AssignOp::Percent => bc.write_instr::<InstrPercent>(span, arg),', '            AssignOp::Percent => {}', 'write_bc'),
+    ('bcargs', BCCALL, '            write_expr_opt(&self.args, bc, |args, bc| {\n                write_expr_opt(&self.kwargs, bc, |kwargs, bc| {', '            write_expr_opt(&self.kwargs, bc, |kwargs, bc| {\n                write_expr_opt(&self.args, bc, |args, bc| {', 'ArgsCompiledValue::write_bc'),
+    ('bcargs', BCCALL, '                        args,\n                        kwargs,\n                    };', '                        args: kwargs,\n                        kwargs: args,\n                    };', 'ArgsCompiledValue::write_bc'),
     ('calls', INSTR, '        eval.with_call_stack(self.to_value(), Some(location), |eval| {\n            self.invoke(args, eval)\n        })', '        self.invoke(args, eval)', 'bc_invoke'),
     ('calls', 'starlark/src/values/layout/value.rs', '        eval.with_call_stack(self, location, |eval| {\n            self.get_ref_full().invoke(args, eval)\n        })', '        self.get_ref_full().invoke(args, eval)', 'invoke_with_loc'),
     ('strindex', STRT, 'let ind = CharIndex(i.unsigned_abs() as usize);', 'let ind = CharIndex((-i) as usize);', 'at'),
@@ -209,7 +212,7 @@ def run_one(idx, m, known):
         line = sp[0]['line_start'] if sp else None
         fn = r.fn_at(line) if line else None
         lab = r.label_at(line) if line else None
-        if any(k in msg for k in ('not satisfied', 'overflow', 'assertion failed', 'invariant', 'precondition not met', 'index in bounds')) or ('post-condition of closure' in msg and lab):
+        if any(k in msg for k in ('not satisfied', 'overflow', 'assertion failed', 'invariant', 'precondition not met', 'index in bounds', 'callee.requires')) or ('post-condition of closure' in msg and lab):
             fails.append('%s|%s' % (lab, fn['fn'] if fn else None))
         else:
             other.append(msg)
